@@ -80,12 +80,12 @@ func (m *Msg) Response(req *http.Request) *http.Response {
 // header maps and the status.
 type State struct {
 	Method, Scheme, Host, Path, Query string
-	ReqH                             http.Header
-	ReqCookies                       []Pair
-	Status                           int
-	ResH                             http.Header
-	ResCookies                       []Pair
-	API                              bool
+	ReqH                              http.Header
+	ReqCookies                        []Pair
+	Status                            int
+	ResH                              http.Header
+	ResCookies                        []Pair
+	API                               bool
 }
 
 // NewState derives the initial reference state from the abstract message
